@@ -167,6 +167,18 @@ theorem non_burn_shape_credits_nothing (burnRCD : Addr) (f : FctTx) (hb : burnOf
 
 end Pegnet.C11
 
+namespace Pegnet.C11
+open Pegnet
+/-- the shipped schedule, regenerated from config/activations.go and fat/fat2/activations.go on every
+    run, against the values this property was read with: the heights at which the grading version, the miner set, staking records and their signatures change. Every scenario of the harness
+    runs on a compressed schedule that overwrites these constants, so nothing else would notice one of
+    them moving; a moved height is a different protocol, not a rewrite. -/
+theorem shipped_schedule :
+    let a := Generated.activations
+    Generated.activationsComplete = true ∧ a.gradingV2 = 210330 ∧ a.v4 = 231620 ∧ a.v20 = 258796 ∧ a.sprSig = 260118 := by
+  decide
+end Pegnet.C11
+
 #print axioms Pegnet.C11.version_ladders_match_source
 #print axioms Pegnet.C11.opr_version_by_height
 #print axioms Pegnet.C11.no_winners_no_reward
@@ -183,3 +195,4 @@ end Pegnet.C11
 #print axioms Pegnet.C11.spr_rewards_exact
 #print axioms Pegnet.C11.fct_burns_credit_exactly
 #print axioms Pegnet.C11.non_burn_shape_credits_nothing
+#print axioms Pegnet.C11.shipped_schedule
